@@ -104,7 +104,18 @@ def run_fixed_grid(case):
         out += gimpl.flat_blocks_normal(blocks)
     res = {"out": out, "output_scale": np.asarray(sol.output_scale, dtype=np.float64).reshape(len(case["grid"]) - 1 if case["calib"] in ("none", "mle", "mle_nocorr") else len(case["grid"]), -1).tolist(),
            "num_steps": np.asarray(sol.num_steps).tolist(), "t": np.asarray(sol.t).tolist()}
+    add_std_accessor(res, sol)
     return res, sol, solver
+
+
+def add_std_accessor(res, sol):
+    """the user-facing accessor u.std: per time, per Taylor coefficient, raveled"""
+    try:
+        T = len(np.asarray(sol.t))
+        leaves = [np.asarray(x, dtype=np.float64) for x in jax.tree_util.tree_leaves(sol.u.std)]
+        res["std_acc"] = [[lv[ti].reshape(-1).tolist() for lv in leaves] for ti in range(T)]
+    except Exception as e:  # noqa: BLE001
+        res["std_acc_error"] = f"{type(e).__name__}: {e}"
 
 
 def raw_normal_blocks(rv, kind):
@@ -221,6 +232,7 @@ def solution_summary(sol, case, with_full=False):
     res = {"out": out, "t": np.asarray(sol.t, dtype=np.float64).tolist(),
            "output_scale": osc.reshape(osc.shape[0], -1).tolist() if osc.ndim > 0 else [[float(osc)]],
            "num_steps": np.asarray(sol.num_steps).tolist()}
+    add_std_accessor(res, sol)
     return res
 
 
